@@ -25,6 +25,13 @@ pub fn sm9_id(p: &mut Prng) -> Vec<u8> {
         2 => vec![],
         3 => p.bytes(1),
         4 => p.bytes(300),
+        5 => {
+            // text identity with surrounding white space (a legal, distinct identity)
+            let mut v = b" ".to_vec();
+            v.extend_from_slice(&ascii(p, 6));
+            v.extend_from_slice(if p.chance(1, 2) { b"\n" } else { b" \t" });
+            v
+        }
         _ => {
             let n = p.range(1, 64);
             p.bytes(n)
@@ -185,8 +192,14 @@ pub fn run_c09(p: &mut Prng, t: Tier, i: usize, sink: &mut Sink) {
     }
     branches.push(vec![fault("a.msg", "extend", json!({"hex":"00"})), v()]);
     branches.push(vec![fault("a.id", "extend", json!({"hex":"00"})), v()]);
+    // the alterations of an identity that happen in practice: surrounding white space, case
+    for ws in ["20", "0a", "0d0a", "09"] {
+        branches.push(vec![fault("a.id", "extend", json!({"hex":ws})), v()]);
+        branches.push(vec![fault("a.id", "prepend", json!({"hex":ws})), v()]);
+    }
     if !id.is_empty() {
         branches.push(vec![fault("a.id", "flip", json!({"bit":id.len() * 8 - 1})), v()]);
+        branches.push(vec![fault("a.id", "xorbyte", json!({"pos":0,"val":0x20})), v()]);
     }
     if have_b {
         branches.push(vec![fault("a.sig", "copy", json!({"from":"b.sig"})), v()]);
@@ -316,8 +329,23 @@ pub fn run_c10(p: &mut Prng, t: Tier, i: usize, sink: &mut Sink) {
     for extra in [1usize, 32, 255, 256, 300] {
         branches.push(vec![fault("a.ct", "extend", json!({"hex":hex::encode(sp.bytes(extra))})), d()]);
     }
+    // two-byte faults whose differences cancel under a folded comparison (C3 = bytes 65..97)
+    for _ in 0..32 {
+        let (a, b) = (65 + sp.range(0, 31), 65 + sp.range(0, 31));
+        if a != b {
+            branches.push(vec![fault("a.ct", "xorpair", json!({"pos1":a,"pos2":b,"val":1u8 << sp.below(8)})), d()]);
+        }
+    }
+    for _ in 0..8 {
+        let (a, b) = (65 + sp.range(0, 31), 97 + sp.range(0, mlen - 1));
+        branches.push(vec![fault("a.ct", "xorpair", json!({"pos1":a,"pos2":b,"val":1u8 << sp.below(8)})), d()]);
+    }
     // different identity at the receiver
     branches.push(vec![fault("a.id", "extend", json!({"hex":"00"})), d()]);
+    for ws in ["20", "0a", "0d0a", "09"] {
+        branches.push(vec![fault("a.id", "extend", json!({"hex":ws})), d()]);
+        branches.push(vec![fault("a.id", "prepend", json!({"hex":ws})), d()]);
+    }
     if !id.is_empty() {
         branches.push(vec![fault("a.id", "flip", json!({"bit":0})), d()]);
         branches.push(vec![fault("a.id", "truncate", json!({"len":id.len() - 1})), d()]);
@@ -333,6 +361,7 @@ pub fn run_c10(p: &mut Prng, t: Tier, i: usize, sink: &mut Sink) {
             branches.push(vec![fault("a.ct", "setbyte", json!({"pos":0,"val":pre})), d()]);
         }
     }
+    let mut crafted: Vec<Vec<Value>> = vec![];
     // crafted: off-curve C1 with K, C2, C3 consistent for the victim (adversary knows de and uses the
     // victim's own pairing arithmetic through the verification wrapper). Both MAC constructions.
     if chunk == 0 {
@@ -364,7 +393,54 @@ pub fn run_c10(p: &mut Prng, t: Tier, i: usize, sink: &mut Sink) {
                 c.extend_from_slice(&mac);
                 c.extend_from_slice(&c2);
                 w.bump("fault.crafted-offcurve-C1");
-                branches.push(vec![set("a.ct", &c), d()]);
+                crafted.push(vec![set("a.ct", &c), d()]);
+            }
+        }
+    }
+    // crafted "zero point": C1 = 04||00..00. A decoder that maps it to infinity gets w = e(O, de) = 1,
+    // so K is computable by anyone; both MAC constructions
+    if chunk == 0 {
+        let one_bytes = rsm9::with(|s| s.f_bytes(&s.f_one()));
+        let c1w = {
+            let mut v = vec![4u8];
+            v.extend_from_slice(&[0u8; 64]);
+            v
+        };
+        let k = kdf(&[&c1w[1..], &one_bytes[..], &id[..]].concat(), msg.len() + 32);
+        let (k1, k2) = k.split_at(msg.len());
+        let c2: Vec<u8> = msg.iter().zip(k1).map(|(a, b)| a ^ b).collect();
+        for mac in [sm3_parts(&[&c2, k2]).to_vec(), hmac_sm3(k2, &c2).to_vec()] {
+            let mut c = c1w.clone();
+            c.extend_from_slice(&mac);
+            c.extend_from_slice(&c2);
+            w.bump("fault.crafted-zero-point");
+            crafted.push(vec![set("a.ct", &c), d()]);
+        }
+    }
+    // crafted: the same C1 sent with x + p (non-canonical, fits 256 bits for ~40 % of points) and
+    // K, C2, C3 recomputed over the bytes as sent: only a coordinate-range check refuses it
+    if chunk == 0 {
+        let dew = w.slots.get("a.uk").cloned().unwrap();
+        if let (Some(c1), Some(de)) = (g1_unwire(&ct[..65]).flatten(), g2_unwire(&dew)) {
+            let pp = rsm9::with(|s| s.p.clone());
+            let xw = &c1.0 + &pp;
+            if xw.bits() <= 256 {
+                let wv = rsm9::with(|s| s.pairing(&Some(c1.clone()), &de).map(|f| s.f_bytes(&f)));
+                if let Some(wbytes) = wv {
+                    let mut c1w = vec![4u8];
+                    c1w.extend_from_slice(&be32(&xw));
+                    c1w.extend_from_slice(&be32(&c1.1));
+                    let k = kdf(&[&c1w[1..], &wbytes[..], &id[..]].concat(), msg.len() + 32);
+                    let (k1, k2) = k.split_at(msg.len());
+                    let c2: Vec<u8> = msg.iter().zip(k1).map(|(a, b)| a ^ b).collect();
+                    for mac in [sm3_parts(&[&c2, k2]).to_vec(), hmac_sm3(k2, &c2).to_vec()] {
+                        let mut c = c1w.clone();
+                        c.extend_from_slice(&mac);
+                        c.extend_from_slice(&c2);
+                        w.bump("fault.crafted-coordinate-ge-p");
+                        crafted.push(vec![set("a.ct", &c), d()]);
+                    }
+                }
             }
         }
     }
@@ -376,6 +452,14 @@ pub fn run_c10(p: &mut Prng, t: Tier, i: usize, sink: &mut Sink) {
         if sidx == 0 {
             w.samples.push(json!({"base_schedule": w.history.clone(), "then":"each fault of the menu on a fork, followed by sm9.decrypt"}));
         }
+    }
+    for br in crafted {
+        // computed (and therefore executed) by chunk 0 only
+        let mut f = w.fork();
+        for op in br {
+            f.exec(op);
+        }
+        sink.done(f);
     }
     for (bi, br) in branches.into_iter().enumerate() {
         if bi % C10_CHUNKS != chunk {
